@@ -537,7 +537,7 @@ func add(a, b *big.Int) *big.Int { return new(big.Int).Add(a, b) }
 func sub(a, b *big.Int) *big.Int { return new(big.Int).Sub(a, b) }
 func mul(a, b *big.Int) *big.Int { return new(big.Int).Mul(a, b) }
 func quo(a, b *big.Int) *big.Int { return new(big.Int).Quo(a, b) }
-func p10(k int) *big.Int        { return new(big.Int).Exp(big.NewInt(10), big.NewInt(int64(k)), nil) }
+func p10(k int) *big.Int         { return new(big.Int).Exp(big.NewInt(10), big.NewInt(int64(k)), nil) }
 
 func clamp(v, max *big.Int) *big.Int {
 	if v.CmpAbs(max) > 0 {
@@ -806,7 +806,6 @@ func (g *gen) intPair(op string, max *big.Int, nbits int, signed bool) {
 	}
 }
 
-
 // boundarySuite: fixed cases one unit either side of every range bound (independent of the seed)
 func (g *gen) boundarySuite() {
 	two := big.NewInt(2)
@@ -849,8 +848,8 @@ func (g *gen) boundarySuite() {
 			}
 			for _, k := range []int{1, 64, 127, r.bits - 1} {
 				a := new(big.Int).Lsh(one, uint(k))
-				g.emit(r.t+".Mul", "suite-bitlen", a, new(big.Int).Lsh(one, uint(r.bits-k)))          // 2^bits: out
-				g.emit(r.t+".Mul", "suite-bitlen", a, new(big.Int).Lsh(one, uint(r.bits-k-1)))        // 2^(bits-1): in
+				g.emit(r.t+".Mul", "suite-bitlen", a, new(big.Int).Lsh(one, uint(r.bits-k)))           // 2^bits: out
+				g.emit(r.t+".Mul", "suite-bitlen", a, new(big.Int).Lsh(one, uint(r.bits-k-1)))         // 2^(bits-1): in
 				g.emit(r.t+".Mul", "suite-bitlen", a, sub(new(big.Int).Lsh(one, uint(r.bits-k)), one)) // just below 2^bits
 			}
 			g.emit(r.t+".Quo", "suite", m, zero)
